@@ -37,6 +37,7 @@ INFO = {
  'C13b': ("dispatch_data_create_subrange does not clamp: the result reports a size near SIZE_MAX / the record walk runs off the array", "non-zero offset and a length within 'offset' of SIZE_MAX (offset + length wraps): the clamp test was rewritten from 'length > size - offset' to 'offset + length > size'"),
  'C15b': ("a merge made while the handler's drain is finishing is never delivered (until some later merge/resume/cancel)", "the merger's RMW on ds_pending_data and its load of dq_state both fall between the drainer's last load of ds_pending_data (0) and its unlock cmpxchg, and no further merge follows: merge_data no longer passes MAKE_DIRTY for a drain-locked source"),
  'C18b': ("inside a dispatch_sync / dispatch_barrier_sync item dispatch_get_specific misses keys of the submitted-to queue (or returns the lower queue's value) and dispatch_assert_queue(top) aborts", "hierarchy top -> mid -> root, synchronous submission to top while top is free and mid is drain-locked by another thread: the woken waiter runs its item with the frame of the queue it waited on instead of the queue it was submitted to"),
+ 'C03b': ("an item submitted with dispatch_sync / dispatch_barrier_sync runs concurrently with items of sibling queues of a workloop-bottomed hierarchy; the workloop's state is corrupted afterwards (hang, 'waking up an inactive workloop' crash)", "bottom of the hierarchy is a workloop, a contended (slow path) sync on a queue that targets the workloop directly: the queue's role is computed as BASE_ANON instead of INNER because workloops carry the BASE type flag"),
  'C19': ("a dispatch_block_cancel that has returned is undone: testcancel reports 0 and the body runs", "another thread cancels while a timed dispatch_block_wait is in progress and that wait then times out: the time-out path writes back the flag word it read on entry instead of clearing only its own bit"),
 }
 V = '/verif'
